@@ -2327,7 +2327,7 @@ fn hash_sequence(d: &mut Dx, rng: &mut Rng) {
             let mut rvals: Vec<Vec<u8>> = r.values().cloned().collect();
             rvals.sort();
             let all: BTreeMap<Vec<u8>, Vec<u8>> = h.get_all().iter().map(|(k, v)| (k.as_bytes().to_vec(), v.as_bytes().to_vec())).collect();
-            let it: BTreeMap<Vec<u8>, Vec<u8>> = h.iter().map(|(k, v)| (k.as_bytes().to_vec(), v.as_bytes().to_vec())).collect();
+            let it: BTreeMap<Vec<u8>, Vec<u8>> = h.iter().map(|(k, v)| { let kb: &[u8] = k.as_ref(); (kb.to_vec(), v.as_bytes().to_vec()) }).collect();
             if h.len() != r.len() || h.is_empty() != r.is_empty() {
                 bad.push(("len".into(), format!("len() = {}, is_empty() = {}, reference {}", h.len(), h.is_empty(), r.len())));
             }
